@@ -232,6 +232,8 @@ class World:
                 kw["timeout"] = op["timeout"]      # virtual seconds on the case's clock
             g = lib["ctparse"].ctparse_gen(pool[e]["text"], **kw)
             self.handles[op["h"]] = [g, e, 0, bool(op.get("timeout"))]
+            if len(self.handles) >= 2:
+                self.stats["open2"] = self.stats.get("open2", 0) + 1
         elif kind == "ADVANCE":
             # (virtual) time passes while every open stream is suspended
             self.clock.now += op["by"]
@@ -497,6 +499,7 @@ def execute(case):
         obs = _exec_ops(lib, case, ops, V, stats)
         alt = _alternations(ops)
         probes["alternating_steps"] += alt
+        probes["streams_open_at_once"] += stats.get("open2", 0)
         stats["sim_time"] += len(ops)
         if alt >= 2:
             keys.append(core.short(ops))
